@@ -31,8 +31,8 @@ def jobs(tier, ctx):
                 if j:
                     j['opt_witness'] = j['opt_witness'] + ['index_in_range', 'index_out_of_range']
                     out.append(j)
-    # (5) switch on integers: real f_switch binary search on tables of 1..7 (9) cases laid out as the code generator writes them
-    for n in (range(1, 8) if tier == 'quick' else range(1, 10)):
+    # (5) switch on integers: real f_switch binary search on tables of 1..7 (8) cases laid out as the code generator writes them
+    for n in (range(1, 8) if tier == 'quick' else range(1, 9)):
         out.append(dict(name='switch_table.n%d' % n, srcs=['@harness/C03/switch_table.c', 'lib/lpc/operator.c', 'src/stack.c', 'lib/lpc/svalue.c'],
                         stubs=['@world/world_base.c', '@world/libc_models.c', '@world/vm_world.c', '@world/world_err.c', '@harness/vm/stubs.c'], defs=['NCASE=%d' % n], unwind=12, nobody_ok=['*'],
                         targets=['f_switch'], timeout=300, mem_gb=4, opt_witness=['case_taken', 'default_taken'],
